@@ -26,12 +26,12 @@ def part_cls(part, K):
     return pcls
 
 
-def make(name, part, K, dom, n):
+def make(name, part, K, dom, n, own=False):
     import importlib
     mod = importlib.import_module("PyXAB.algos." + ("HOO" if name == "T_HOO" else name))
     cls = getattr(mod, name)
     P = part_cls(part, K)
-    d = [list(x) for x in dom]
+    d = dom if own else [list(x) for x in dom]        # own=True: hand the caller's object itself to the library
     if name == "T_HOO":
         return cls(rounds=n, domain=d, partition=P)
     if name in ("HCT", "VHCT", "Zooming"):
@@ -58,11 +58,11 @@ def _alarm(sig, frm):
     raise Hang()
 
 
-def drive(name, part, K, dom, n, rewards, seed, labels=None, query_every=0, rounds=None):
+def drive(name, part, K, dom, n, rewards, seed, labels=None, query_every=0, rounds=None, own=False):
     """the documented loop; returns (points, recommendation)"""
     np.random.seed(seed)
     random.seed(seed)
-    A = make(name, part, K, dom, n)
+    A = make(name, part, K, dom, n, own=own)
     pts = []
     T = len(rewards) if rounds is None else rounds
     for i in range(T):
@@ -118,18 +118,19 @@ def check_C01(name, part, K, dom, n, rewards, seed):
 
 def check_C14(name, part, K, dom, n, rewards, seed):
     d0 = copy.deepcopy(dom)
-    a = drive(name, part, K, dom, n, rewards, seed)
-    if dom != d0:
-        return "the domain object passed by the user was modified: %r -> %r" % (d0, dom)
+    mine = copy.deepcopy(dom)
+    a = drive(name, part, K, mine, n, rewards, seed, own=True)
+    if mine != d0:
+        return "the domain object passed by the user was modified: %r -> %r" % (d0, mine)
     b = drive(name, part, K, dom, n, rewards, seed)
     if a != b:
         return "two runs with the same seed, arguments and rewards differ"
     # the user's list must not be aliased into mutable state either: interleave two instances that share the SAME domain object
     shared = [list(x) for x in dom]
     np.random.seed(seed); random.seed(seed)
-    A = make(name, part, K, shared, n)
+    A = make(name, part, K, shared, n, own=True)
     st = np.random.get_state()
-    B = make(name, part, K, shared, n)
+    B = make(name, part, K, shared, n, own=True)
     np.random.set_state(st)
     pa = []
     for i, r in enumerate(rewards):
